@@ -196,6 +196,9 @@ def run_case(case):
     n0 = "|n0" if fr["n"] == 0 else ""
     with common.Scratch() as d:
         df, path, err = write_case(case, d)
+        if isinstance(err, AttributeError):
+            # a refusal is a ValueError / TypeError / NotImplementedError; this is the library tripping over a valid request
+            return viol("write_crashed|%s|dpv%d" % (exc_sig(err), opts.get("dpv", 1)), exc_detail(err), labels=labels)
         if err is not None:
             return ok(False, labels + ["write_raised", "write_raised:" + type(err).__name__])
         try:
